@@ -14,7 +14,7 @@ import c11
 PROPERTY = 'C06'
 MANIFEST = {
  'level_text': 'Lean 4 theorems, kernel-checked, about a model of the funnels every outgoing message passes: the IrcMsg keyword constructor with its isValidArgument assertion, IrcMsg.__str__, safeArgument, callbacks._makeReply (all flag/configuration combinations), ircmsgs.privmsg/notice/action, the label tag and Irc._truncateMsg: a message built by the keyword constructor whose prefix, command and tag keys are clean serialises to exactly one line (one CR LF, at the end, no NUL); _makeReply yields such a message or the constructor asserts, for every reply text (any Unicode, any control characters), every flag combination and every configuration; after _truncateMsg the non-tag part has at most 512 UTF-8 bytes (the cut never splits a character) and the line is still well formed. MAX_LINE_SIZE, the characters isValidArgument rejects, how _truncateMsg measures/cuts and the inventory of IrcMsg constructions that bypass the assertion (string branch, msg=) are re-extracted from /repo on every run and enter through table lemmas; model and code are tied by differential runs on _makeReply, on the constructors/truncation and by a sweep of every command of the loaded plugins on a live bot.',
- 'level_note': 'Trusted: Lean kernel; harness/extractors/out.py; the correspondence harness; Python repr() is a parameter with the contract "its output contains no CR, LF, NUL" (checked on every use). Modelled and proved: the two funnels every message passes (constructor assertion, takeMsg truncation) and the reply payload construction. Exercised, not proved: the bodies of the ~60 plugins (sweep C); the sites that construct an IrcMsg through msg= or from a raw string are an extracted inventory with an allow-list obligation (outFilter rewriters of BadWords/Filter/Google/ShrinkUrl, owner-only Debug.sendquote/Owner.ircquote, two copies, two incoming paths). Tags are outside the 512-byte bound (as in the property).',
+ 'level_note': 'Trusted: Lean kernel; harness/extractors/out.py; the correspondence harness; Python repr() is a parameter with the contract "its output contains no CR, LF, NUL" (checked on every use). Modelled and proved: the two funnels every message passes (constructor assertion, takeMsg truncation) and the reply payload construction. Observation point of the live levels: the bytes the real SocketDriver writes to a fake socket after the real Irc.takeMsg (capability sets none / labeled-response / echo-message / message-tags). Exercised, not proved: the bodies of the ~60 plugins (sweep C), the Filter/BadWords outFilter rewriters (level E, each installed through the real command); the sites that construct an IrcMsg through msg= or from a raw string are an extracted inventory with an allow-list obligation (outFilter rewriters of BadWords/Filter/Google/ShrinkUrl, owner-only Debug.sendquote/Owner.ircquote, two copies, two incoming paths). Tags are outside the 512-byte bound (as in the property).',
  'technique': 'Lean 4 proof (list induction, case analysis over the reply flags) + table extraction + differential correspondence + live command sweep',
  'design_ref': 'DESIGN.md §6 C06',
 }
